@@ -1,7 +1,32 @@
 (* Props/C01.v — property theorems only.  Execution yields exactly the graph the reference prescribes.
-   PARTIAL in this revision: the refinement `strict model = reference semantics` (Spec/RefSem.v) is
-   being proved separately; proved here are the driver shape and facts about the model used by it. *)
-From TSG Require Import Model.Strict Proofs.Captures Proofs.Extends.
+   Spec/RefSem.v is the reference semantics (a big-step evaluator transcribed from src/reference/mod.rs:
+   no cancellation polls, no error contexts, no shared parameter buffer, no debug attributes).
+   Model/Strict.v mirrors src/execution/strict.rs function by function and is tied to the code by the
+   correspondence stream, which ALSO evaluates Spec/RefSem.v on every case. *)
+From TSG Require Import Model.Strict Spec.RefSem Proofs.Captures Proofs.Extends Proofs.ErrorCtx Proofs.RefSim.
+
+(* the model of strict.rs returns exactly what the reference prescribes: the same graph (equality, hence
+   nothing added and nothing missing), or an error with the same root cause; for every file, tree, matches,
+   globals, function library with plain errors, initial graph and fuel *)
+Theorem strict_refines_reference : forall {rx : Type} t fl supplied (regexes : list rx) find call fuel matches g0,
+  call_errors_base call ->
+  match run_strict t fl config0 supplied None regexes find call fuel matches g0 with
+  | Ok (s, _) => ref_run t fl supplied regexes find call fuel matches g0 = Ok (s_graph s)
+  | Err e => ref_run t fl supplied regexes find call fuel matches g0 = Err (root_cause e)
+  | Panic x => ref_run t fl supplied regexes find call fuel matches g0 = Panic x
+  | OutOfFuel => ref_run t fl supplied regexes find call fuel matches g0 = OutOfFuel
+  end.
+Proof. intros rx. exact (@strict_refines_reference_lemma rx). Qed.
+
+(* the shared function_parameters buffer is invisible: evaluating a call's arguments pushes exactly their
+   values and the call drains exactly those (params_stack_balanced), so the call sees the argument list the
+   reference evaluates *)
+Theorem params_stack_balanced : forall call, call_errors_base call -> forall (ev rv : expr -> M sstate value) f,
+  (forall a, sim (ev a) (rv a)) -> forall args,
+  sim (iterM (fun a => v <- ev a ;; push_param v) args ;;; ps <- drain_params (length args) ;; call_function call f ps)
+      (vs <- mapM rv args ;; call_function call f vs).
+Proof. intros call Hc. exact (sim_call_args call Hc). Qed.
+
 
 (* each stanza's block runs exactly once per match of its query, stanzas in file order *)
 Theorem strict_driver_blocks_once : forall {rx : Type} t fl cfg glob (regexes : list rx) find call fuel sts ms s p,
